@@ -1162,3 +1162,19 @@ Proof.
   - apply (R_inv _ _ _ HR).
   - unfold sched_ok. apply forallb_forall. reflexivity.
 Qed.
+
+(* the value of a satisfied promise is one a caller passed: to setDelayedValue for that very key, or to fulfillAllPromises *)
+Lemma provenance ns progs s q k key v : R ns progs s ->
+  nth_error (heap (ct (gl s))) q = Some (Cell k key (SetV v)) ->
+  exists t rv, (exists mv, In (t, SetValue mv k key v, rv) (hist (gl s))) \/ In (t, FulfillAll v, rv) (hist (gl s)).
+Proof. intros HR. apply (I_prov _ _ (R_inv _ _ _ HR)). Qed.
+
+(* every future a client holds refers to a promise that exists: observations never read outside the heap *)
+Lemma slots_valid ns progs s u l i p : R ns progs s ->
+  nth_error (thr s) u = Some l -> nth_error (slots l) i = Some (Some p) ->
+  exists k key st, nth_error (heap (ct (gl s))) p = Some (Cell k key st).
+Proof.
+  intros HR Hu Hi. pose proof (I_slots _ _ (R_inv _ _ _ HR) _ _ _ _ Hu Hi) as Hp.
+  destruct (nth_error (heap (ct (gl s))) p) as [[k key st]|] eqn:E; [eauto|].
+  apply nth_error_None in E. lia.
+Qed.
